@@ -1,4 +1,4 @@
-CONSTANTS PS = 4  PBits = 2  MaxAddr = 15  MaxRegions = 2  MaxKFrames = 2  WB = 4  MaxEarly = 0  MaxOps = 0
+CONSTANTS PS = 4  PBits = 2  MaxAddr = 13  MaxRegions = 2  MaxKFrames = 2  WB = 4  MaxEarly = 0  MaxOps = 0
   Family = "all"  AllowFree = FALSE  Mode = "boot"  Bug = "JumpFromOtherRegion"  Emit = FALSE
   Props = {"C01", "C02", "C03"}
 CONSTANT HistMaps <- MCHistMaps
